@@ -45,6 +45,7 @@ func cmdCheck(args []string) int {
 	tier := fs.String("tier", envOr("VERIF_TIER", "quick"), "quick|thorough")
 	repo := fs.String("repo", envOr("SPG_REPO", "/repo"), "repository root")
 	verif := fs.String("verif", envOr("SPG_VERIF", "/verif"), "verif root (evidence, known findings)")
+	fixtures := fs.String("fixtures", envOr("SPG_FIXTURES", "/verif/checker/fixtures"), "directory of seeded-positive fixture modules")
 	_ = fs.Parse(args)
 	seed, _ := strconv.Atoi(os.Getenv("VERIF_SEED"))
 	if *tier != "quick" && *tier != "thorough" {
@@ -71,7 +72,15 @@ func cmdCheck(args []string) int {
 			reports = append(reports, rp)
 		}
 	}
-	out := core.Finish(pr.Meta, *tier, seed, reports, nil, *verif, start, fatal)
+	extra := map[string]interface{}{}
+	if pr.Fixture != "" {
+		fx, ferr := runFixture(pr, *fixtures)
+		extra["fixture"] = fx
+		if ferr != nil {
+			fatal = append(fatal, "fixture: "+ferr.Error())
+		}
+	}
+	out := core.Finish(pr.Meta, *tier, seed, reports, extra, *verif, start, fatal)
 	return out.ExitCode
 }
 
@@ -93,6 +102,41 @@ func runOne(pr *rules.Property, repo string, cfg core.Config) (rp *core.Report, 
 	rp.Count("module_functions", len(p.ModuleFuncs()))
 	pr.Run(p, rp)
 	return rp, nil
+}
+
+// runFixture runs the property's rules on its seeded-positive fixture module and
+// requires every expected rule to fire there (guards against blind rules whose
+// expected count on the real tree is zero).
+func runFixture(pr *rules.Property, fixtures string) (res map[string]interface{}, err error) {
+	defer func() {
+		if x := recover(); x != nil {
+			err = fmt.Errorf("checker panic on fixture: %v\n%s", x, debug.Stack())
+		}
+	}()
+	dir := fixtures + "/" + pr.Fixture
+	p, lerr := core.Load(dir, core.Configs[0])
+	if lerr != nil {
+		return nil, lerr
+	}
+	rp := core.NewReport(pr.Meta.ID, p)
+	pr.Run(p, rp)
+	fired := map[string][]string{}
+	for _, o := range rp.Obs {
+		if o.Status == core.Violated || o.Status == core.Undecided {
+			fired[o.Rule] = append(fired[o.Rule], o.Construct+" @ "+o.Pos)
+		}
+	}
+	var blind []string
+	for _, rule := range pr.FixtureExpects {
+		if len(fired[rule]) == 0 {
+			blind = append(blind, rule)
+		}
+	}
+	res = map[string]interface{}{"dir": dir, "expected_rules": pr.FixtureExpects, "fired": fired}
+	if len(blind) > 0 {
+		return res, fmt.Errorf("rule(s) %v did not fire on their seeded positive in %s (rule blind)", blind, dir)
+	}
+	return res, nil
 }
 
 func cmdExplain(args []string) int {
